@@ -148,7 +148,19 @@ pub fn ordinal_base(n: u64) -> String {
 }
 
 pub fn ordinals(n: u64) -> Vec<SpelledOrd> {
-    vec![SpelledOrd { text: ordinal_base(n), marker: "e", inflection: "-", variant: "primary" }]
+    let mut v = vec![SpelledOrd { text: ordinal_base(n), marker: "e", inflection: "-", variant: "primary" }];
+    // split before honderd / duizend as for cardinals: the ordinal ending sits on the last word
+    let r = n % 100;
+    if n > 100 && n < 1_000_000 {
+        let st = Style { split_scale: true, ..Style::default() };
+        let text = if (1..20).contains(&r) {
+            format!("{} {}", cardinal(n - r, &st), ORD_SMALL[r as usize])
+        } else {
+            format!("{}ste", cardinal(n, &st))
+        };
+        v.push(SpelledOrd { text, marker: "e", inflection: "-", variant: "split-at-duizend-and-after-honderd" });
+    }
+    v
 }
 
 pub fn segment(word: &str, out: &mut Vec<String>) {
